@@ -156,7 +156,7 @@ func (te *TEnv) term(e Expr) TV {
 		base := te.term(x.X)
 		idx := te.term(x.I)
 		if base.sort == sortSlice {
-			sl, _ := types.Unalias(base.gt).Underlying().(*types.Slice)
+			sl, _ := underNil(base.gt).(*types.Slice)
 			if sl == nil {
 				return te.fail("index of untyped slice in %s", exprString(e))
 			}
@@ -480,11 +480,11 @@ func (te *TEnv) selectField(base TV, name string, e Expr) TV {
 func (te *TEnv) step(cur TV, fi int) TV {
 	vc := te.vc
 	reg := vc.eng.types
-	gt := types.Unalias(cur.gt)
+	gt := unaliasNil(cur.gt)
 	if cur.ip != nil {
 		// location of a struct value: read it
 		cur = TV{t: vc.readLoc(te.st, cur.ip), sort: reg.sortOf(cur.ip.targetType()), gt: cur.ip.targetType()}
-		gt = types.Unalias(cur.gt)
+		gt = unaliasNil(cur.gt)
 	}
 	if p, ok := gt.Underlying().(*types.Pointer); ok {
 		si := reg.structInfoOf(p.Elem())
@@ -813,7 +813,7 @@ func (te *TEnv) call(x *ECall) TV {
 	case "elems":
 		if need(1) {
 			a := arg(0)
-			sl, _ := types.Unalias(a.gt).Underlying().(*types.Slice)
+			sl, _ := underNil(a.gt).(*types.Slice)
 			if sl == nil {
 				return te.fail("elems of non-slice")
 			}
@@ -823,7 +823,7 @@ func (te *TEnv) call(x *ECall) TV {
 	case "mapHas", "mapGet":
 		if need(2) {
 			m, k := arg(0), arg(1)
-			mt, ok := types.Unalias(m.gt).Underlying().(*types.Map)
+			mt, ok := underNil(m.gt).(*types.Map)
 			if !ok || m.gt == nil {
 				return te.fail("%s of non-map", x.Fn)
 			}
@@ -894,7 +894,7 @@ func (te *TEnv) call(x *ECall) TV {
 			if a.gt == nil {
 				return te.fail("deref of untyped term in %s", exprString(x))
 			}
-			p, ok := types.Unalias(a.gt).Underlying().(*types.Pointer)
+			p, ok := underNil(a.gt).(*types.Pointer)
 			if !ok {
 				return te.fail("deref of non-pointer")
 			}
@@ -961,7 +961,7 @@ func (te *TEnv) loc(e Expr) *IPtr {
 	case *ESel:
 		base := te.term(x.X)
 		if base.ip == nil {
-			if p, ok := types.Unalias(base.gt).Underlying().(*types.Pointer); ok && base.gt != nil {
+			if p, ok := underNil(base.gt).(*types.Pointer); ok && base.gt != nil {
 				si := reg.structInfoOf(p.Elem())
 				path, ok2 := findFieldPath(p.Elem(), x.Name, 0)
 				if si != nil && ok2 && len(path) == 1 {
@@ -987,7 +987,7 @@ func (te *TEnv) loc(e Expr) *IPtr {
 	case *EIndex:
 		base := te.term(x.X)
 		idx := te.term(x.I)
-		if sl, ok := types.Unalias(base.gt).Underlying().(*types.Slice); ok && base.gt != nil {
+		if sl, ok := underNil(base.gt).(*types.Slice); ok && base.gt != nil {
 			es := reg.sortOf(sl.Elem())
 			return &IPtr{root: rootElem, heap: heapKeyElem(es), vsort: es, ref: "(sref " + base.t + ")", idx: "(+ (soff " + base.t + ") " + idx.t + ")", rootT: sl.Elem()}
 		}
@@ -1021,7 +1021,7 @@ func (te *TEnv) havocDesignator(m ModItem, st *State) {
 		switch x.Fn {
 		case "all":
 			tv := te.term(x.Args[0])
-			if p, ok := types.Unalias(tv.gt).Underlying().(*types.Pointer); ok && tv.gt != nil {
+			if p, ok := underNil(tv.gt).(*types.Pointer); ok && tv.gt != nil {
 				if si := reg.structInfoOf(p.Elem()); si != nil {
 					for i, f := range si.fields {
 						vc.writeField(st, tv.t, si, i, vc.fresh("hv_"+f.name, f.sort))
@@ -1034,7 +1034,7 @@ func (te *TEnv) havocDesignator(m ModItem, st *State) {
 			}
 		case "mapof":
 			tv := te.term(x.Args[0])
-			if mt, ok := types.Unalias(tv.gt).Underlying().(*types.Map); ok && tv.gt != nil {
+			if mt, ok := underNil(tv.gt).(*types.Map); ok && tv.gt != nil {
 				fr := &frame{vc: vc}
 				pk, ps, vk, vs := fr.mapHeaps(mt)
 				hp := vc.heapGet(st, pk, ps)
@@ -1047,7 +1047,7 @@ func (te *TEnv) havocDesignator(m ModItem, st *State) {
 			}
 		case "elems":
 			tv := te.term(x.Args[0])
-			if sl, ok := types.Unalias(tv.gt).Underlying().(*types.Slice); ok && tv.gt != nil {
+			if sl, ok := underNil(tv.gt).(*types.Slice); ok && tv.gt != nil {
 				es := reg.sortOf(sl.Elem())
 				key := heapKeyElem(es)
 				hs := "(Array Int (Array Int " + es + "))"
